@@ -174,16 +174,24 @@ def run(ctx):
             g.loc(), '_requested_indent is not the indent PyYAML passes on')
     seps = [n for n in g.walk() if isinstance(n, ast.Assign) and any(norm(t) == 'self._kv_sep' for t in n.targets)]
     ok_none = ok_some = False
+    # after `self._requested_indent = indent` (never assigned elsewhere) the attribute is the parameter under another name
+    ind_names = ['indent']
+    if len(st) == 1 and norm(st[0].value) == 'indent' and all(g.cfg.dominates(g.nid(st[0]), g.nid(n)) for n in seps if g.nid(n) is not None):
+        ind_names.append('self._requested_indent')
+
+    def ind_guard(n, is_none: bool) -> bool:
+        return any(g.has_guard(n, '%s is not None' % x, not is_none, expand=False) or g.has_guard(n, '%s is None' % x, is_none, expand=False)
+                   for x in ind_names)
     for n in seps:
         v = const_str(n.value)
-        none_side = g.has_guard(n, 'indent is not None', False, expand=False) or g.has_guard(n, 'indent is None', True, expand=False)
-        some_side = g.has_guard(n, 'indent is not None', True, expand=False) or g.has_guard(n, 'indent is None', False, expand=False)
+        none_side = ind_guard(n, True)
+        some_side = ind_guard(n, False)
         if none_side and v == ':':
             ok_none = True
         if some_side and v is not None and v.strip() == ':' and set(v) <= set(': '):
             ok_some = True
         if isinstance(n.value, ast.IfExp):
-            ok_none = ok_some = (norm(n.value) in ("': ' if indent is not None else ':'", "':' if indent is None else ': '"))
+            ok_none = ok_some = any(norm(n.value) in ("': ' if %s is not None else ':'" % x, "':' if %s is None else ': '" % x) for x in ind_names)
     # a class-level default that __init__ overrides only when an indent was requested
     dflt = P.cls('yatiml.dumper:Dumper').class_attrs.get('_kv_sep')
     if dflt is not None and const_str(dflt) == ':' and seps and not any(
